@@ -6,6 +6,7 @@ pub mod p05;
 pub mod p19;
 pub mod p20;
 pub mod pcli;
+pub mod pdelete;
 pub mod pexec;
 pub mod pexpr;
 pub mod pglob;
@@ -48,6 +49,7 @@ pub fn get(name: &str) -> Option<Box<dyn Prop>> {
         "C13" => Some(Box::new(pstat::PStat::default())),
         "C09" => Some(Box::new(pexec::PExec::new("C09"))),
         "C08" => Some(Box::new(pexec::PExec::new("C08"))),
+        "C10" => Some(Box::new(pdelete::PDelete::default())),
         "C04" => Some(Box::new(p04::P04::default())),
         "C05" => Some(Box::new(p05::P05::default())),
         "C19" => Some(Box::new(p19::P19::default())),
